@@ -36,6 +36,7 @@ type Engine struct {
 	onlySafe        bool // thin mode: only clauses labelled safe_* are checked and assumed
 	inlineExternal  map[string]bool
 	effectsMemo     map[*ssa.Function]*effects
+	embKeys         map[string]bool
 	funcIndex       map[string]*ssa.Function
 	eventIDs        map[string]int
 	mu              sync.Mutex
@@ -148,6 +149,40 @@ func (e *Engine) allPackages() []*types.Package {
 		out = append(out, e.typPkgs[k])
 	}
 	return out
+}
+
+// embeddedHeapKeys: the shape keys of the types of separately addressed
+// (embedded) fields; only objects of these types live at embedded addresses.
+func (e *Engine) embeddedHeapKeys() map[string]bool {
+	if e.embKeys != nil {
+		return e.embKeys
+	}
+	e.embKeys = map[string]bool{}
+	for k := range e.contracts.Embedded {
+		i := strings.LastIndex(k, ".")
+		j := strings.LastIndex(k[:i], ".")
+		if i < 0 || j < 0 {
+			continue
+		}
+		pkgPath, tn, fn := k[:j], k[j+1:i], k[i+1:]
+		for _, p := range e.allPackages() {
+			if p.Path() != pkgPath {
+				continue
+			}
+			obj := p.Scope().Lookup(tn)
+			if obj == nil {
+				continue
+			}
+			if st, ok := obj.Type().Underlying().(*types.Struct); ok {
+				for f := 0; f < st.NumFields(); f++ {
+					if st.Field(f).Name() == fn {
+						e.embKeys[shapeOf(st.Field(f).Type()).key] = true
+					}
+				}
+			}
+		}
+	}
+	return e.embKeys
 }
 
 func (e *Engine) specFor(fn *ssa.Function) *FuncSpec {
@@ -541,6 +576,32 @@ func (e *Engine) modifiesHeaps(callee *ssa.Function, spec *FuncSpec, loc string,
 	if name == "nothing" {
 		return
 	}
+	if strings.HasPrefix(name, "allof(") {
+		tn := strings.Trim(strings.TrimSuffix(strings.TrimPrefix(name, "allof("), ")"), "\" ")
+		env := &Env{fx: &FnCtx{eng: e}, pkg: e.pkgOf(spec.Pkg)}
+		if callee != nil && callee.Pkg != nil && spec.Pkg == "" {
+			env.pkg = callee.Pkg.Pkg
+		}
+		sh := shapeOf(env.resolveTypeExpr(tn))
+		if sh.kind == KMap {
+			has, val, hasSort, valSorts, _ := mapHeaps(sh)
+			hs[has[0]] = arrSort(hasSort)
+			for k := range val {
+				hs[val[k]] = arrSort(valSorts[k])
+			}
+			hs["ML|"+sh.key] = arrSort(sInt)
+		} else {
+			if sh.kind == KSlice {
+				sh = &Shape{kind: KArr, elem: sh.elem, n: -1, key: "[?]" + sh.elem.key}
+			}
+			for c := 0; c < sh.ncomp(); c++ {
+				hs[heapName(sh, c)] = heapSort(sh, c)
+			}
+		}
+		return
+	}
+	isMapOf := strings.HasPrefix(name, "mapof(")
+	name = strings.TrimPrefix(name, "mapof(")
 	name = strings.TrimPrefix(name, "*")
 	name = strings.TrimPrefix(name, "deref(")
 	isElems := strings.HasPrefix(name, "elems(") || strings.HasPrefix(name, "backing(")
@@ -558,6 +619,41 @@ func (e *Engine) modifiesHeaps(callee *ssa.Function, spec *FuncSpec, loc string,
 			continue
 		}
 		t := callee.Params[i].Type()
+		if isMapOf {
+			// walk the field path to the map type
+			for _, f := range strings.Split(field, ".") {
+				if f == "" {
+					continue
+				}
+				if pt, ok := t.Underlying().(*types.Pointer); ok {
+					t = pt.Elem()
+				}
+				st, ok := t.Underlying().(*types.Struct)
+				if !ok {
+					return
+				}
+				found := false
+				for k := 0; k < st.NumFields(); k++ {
+					if st.Field(k).Name() == f {
+						t = st.Field(k).Type()
+						found = true
+					}
+				}
+				if !found {
+					return
+				}
+			}
+			if _, ok := t.Underlying().(*types.Map); ok {
+				msh := shapeOf(t)
+				has, val, hasSort, valSorts, _ := mapHeaps(msh)
+				hs[has[0]] = arrSort(hasSort)
+				for k := range val {
+					hs[val[k]] = arrSort(valSorts[k])
+				}
+				hs["ML|"+msh.key] = arrSort(sInt)
+			}
+			return
+		}
 		if isElems {
 			if sl, ok := t.Underlying().(*types.Slice); ok {
 				ash := &Shape{kind: KArr, elem: shapeOf(sl.Elem()), n: -1}
@@ -944,6 +1040,9 @@ func (e *Engine) verifyFunction(key string, extra *FuncSpec) (res *FuncResult) {
 	// the spec used for loops is looked up by execFunction via specFor; make
 	// the merged one visible
 	fx.rootSpec = spec
+	if spec != nil && !spec.Inline {
+		fx.frame = &frameInfo{locs: fr0.frameLocs(spec, pre, lets), preAlloc: pre.alloc}
+	}
 	out, vals := fx.execFunction(fn, args, nil, st, path, 0, true)
 
 	// reachability of the normal exit
@@ -1001,7 +1100,9 @@ func (e *Engine) verifyFunction(key string, extra *FuncSpec) (res *FuncResult) {
 			}
 		}
 	}
-	if spec != nil && len(spec.Modifies) > 0 {
+	// a contract without a modifies clause promises that nothing that existed
+	// at entry changes; callers rely on it, so it is checked too
+	if spec != nil && !spec.Inline {
 		fr0.checkFrame(spec, pre, out, lets, path, fn)
 	}
 	res.Obligations = fx.obls
@@ -1010,6 +1111,7 @@ func (e *Engine) verifyFunction(key string, extra *FuncSpec) (res *FuncResult) {
 }
 
 type frameLoc struct {
+	all    bool // every object of the heap
 	heap   string // heap name
 	ref    T
 	window bool
@@ -1019,6 +1121,29 @@ type frameLoc struct {
 // checkFrame proves that nothing outside the modifies clause changed in
 // memory that existed at entry.
 func (fr *Frame) checkFrame(spec *FuncSpec, pre, out *State, lets map[string]CV, path string, fn *ssa.Function) {
+	fx := fr.fx
+	fi := fx.frame
+	if fi == nil {
+		return
+	}
+	for _, h := range sortedKeys(out.heaps) {
+		cond, skip := fx.frameCond(h, out.heaps[h], out.alloc, false)
+		if skip {
+			continue
+		}
+		fx.oblige("frame", fmt.Sprintf("%s/frame/%s", path, sanitize(h)), out, cond, fn.Pos(), "modifies "+strings.Join(spec.Modifies, ", "))
+	}
+}
+
+// frameInfo is the modifies clause of the function under verification,
+// evaluated in its entry state.
+type frameInfo struct {
+	locs     []frameLoc
+	preAlloc T
+}
+
+// frameLocs evaluates the modifies clause in the entry state.
+func (fr *Frame) frameLocs(spec *FuncSpec, pre *State, lets map[string]CV) []frameLoc {
 	fx := fr.fx
 	var locs []frameLoc
 	env := fr.envFor(pre, pre, lets)
@@ -1058,6 +1183,40 @@ func (fr *Frame) checkFrame(spec *FuncSpec, pre, out *State, lets map[string]CV,
 				addObj(cv.v.sh.elem, cv.v.ts[0], 0, cv.v.sh.elem.ncomp())
 				continue
 			}
+			if x.Fn == "allof" {
+				id, ok := x.Args[0].(*EStr)
+				if !ok {
+					unsupp("modifies allof(\"T\")")
+				}
+				sh := shapeOf(env.resolveTypeExpr(id.V))
+				if sh.kind == KMap {
+					has, val, _, _, _ := mapHeaps(sh)
+					locs = append(locs, frameLoc{heap: has[0], all: true}, frameLoc{heap: "ML|" + sh.key, all: true})
+					for _, v := range val {
+						locs = append(locs, frameLoc{heap: v, all: true})
+					}
+				} else {
+					if sh.kind == KSlice {
+						sh = &Shape{kind: KArr, elem: sh.elem, n: -1, key: "[?]" + sh.elem.key}
+					}
+					for c := 0; c < sh.ncomp(); c++ {
+						locs = append(locs, frameLoc{heap: heapName(sh, c), all: true})
+					}
+				}
+				continue
+			}
+			if x.Fn == "mapof" {
+				cv := env.eval(x.Args[0])
+				if cv.k != cvVal || cv.v.sh.kind != KMap {
+					unsupp("modifies %s: not a map", m)
+				}
+				has, val, _, _, _ := mapHeaps(cv.v.sh)
+				locs = append(locs, frameLoc{heap: has[0], ref: cv.v.ts[0]}, frameLoc{heap: "ML|" + cv.v.sh.key, ref: cv.v.ts[0]})
+				for _, v := range val {
+					locs = append(locs, frameLoc{heap: v, ref: cv.v.ts[0]})
+				}
+				continue
+			}
 			if x.Fn == "backing" {
 				cv := env.eval(x.Args[0])
 				if cv.k != cvVal || cv.v.sh.kind != KSlice {
@@ -1073,6 +1232,11 @@ func (fr *Frame) checkFrame(spec *FuncSpec, pre, out *State, lets map[string]CV,
 				sh := base.v.sh.elem
 				for i, n := range sh.fnames {
 					if n == x.Name {
+						if fx.eng.contracts.Embedded[embeddedKey(sh, i)] {
+							fsh := sh.fields[i]
+							addObj(fsh, app("+", embBase, app("*", base.v.ts[0], "64"), num(int64(i))), 0, fsh.ncomp())
+							continue
+						}
 						lo, hi := sh.fieldRange(i)
 						addObj(sh, base.v.ts[0], lo, hi)
 					}
@@ -1090,41 +1254,82 @@ func (fr *Frame) checkFrame(spec *FuncSpec, pre, out *State, lets map[string]CV,
 		}
 		unsupp("modifies clause %q not understood", m)
 	}
-	for _, h := range sortedKeys(out.heaps) {
-		final := out.heaps[h]
-		init := "|H0:" + sanitize(h) + "|"
-		if final == init {
+	return locs
+}
+
+// frameCond states that heap term `final` of heap h agrees with the entry
+// heap on every object that existed at entry and is outside the modifies
+// clause.  As a goal it is stated for a fresh object (and index); as an
+// assumption (loop heads) it is quantified.
+func (fx *FnCtx) frameCond(h string, final T, curAlloc T, asAssumption bool) (T, bool) {
+	fi := fx.frame
+	init := "|H0:" + sanitize(h) + "|"
+	if final == init {
+		return "", true
+	}
+	so := fx.heapSorts[h]
+	if so == "" || !strings.HasPrefix(so, "(Array Int ") {
+		return "", true
+	}
+	fx.decls.Raw(fmt.Sprintf("(declare-fun %s () %s)", init, so))
+	var r, i T
+	if asAssumption {
+		r, i = "fr_r", "fr_i"
+	} else {
+		r = fx.decls.Fresh("frame_r", sInt)
+	}
+	var excl []T
+	var wins []frameLoc
+	for _, l := range fi.locs {
+		if l.heap != h {
 			continue
 		}
-		so := fx.heapSorts[h]
-		fx.decls.Raw(fmt.Sprintf("(declare-fun %s () %s)", init, so))
-		r := fx.decls.Fresh("frame_r", sInt)
-		var excl []T
-		var wins []frameLoc
-		for _, l := range locs {
-			if l.heap != h {
-				continue
-			}
-			if l.window {
-				wins = append(wins, l)
-			} else {
-				excl = append(excl, eq(r, l.ref))
-			}
+		if l.all {
+			return "", true
 		}
-		existed := and(le("1", r), le(r, pre.alloc))
-		var cond T
-		if strings.HasPrefix(h, "E|") && len(wins) > 0 {
-			i := fx.decls.Fresh("frame_i", sInt)
-			var inWin []T
-			for _, w := range wins {
-				inWin = append(inWin, and(eq(r, w.ref), le(w.lo, i), lt(i, w.hi)))
-			}
-			cond = imp(and(existed, not(or(excl...)), not(or(inWin...))), eq(sel(sel(final, r), i), sel(sel(init, r), i)))
+		if l.window {
+			wins = append(wins, l)
 		} else {
-			cond = imp(and(existed, not(or(excl...))), eq(sel(final, r), sel(init, r)))
+			excl = append(excl, eq(r, l.ref))
 		}
-		fx.oblige("frame", fmt.Sprintf("%s/frame/%s", path, sanitize(h)), out, cond, fn.Pos(), "modifies "+strings.Join(spec.Modifies, ", "))
 	}
+	existed := and(le("1", r), le(r, fi.preAlloc))
+	withEmb := false
+	if strings.HasPrefix(h, "O|") {
+		if i := strings.LastIndex(h, "|"); i > 2 {
+			withEmb = fx.eng.embeddedHeapKeys()[h[2:i]]
+		}
+	}
+	if withEmb {
+		existed = or(existed,
+			and(le(embBase, r), le("1", app("div", app("-", r, embBase), "64")), le(app("div", app("-", r, embBase), "64"), fi.preAlloc)))
+	}
+	var cond T
+	elemWise := strings.HasPrefix(h, "E|") && len(wins) > 0
+	if elemWise {
+		if !asAssumption {
+			i = fx.decls.Fresh("frame_i", sInt)
+		}
+		var inWin []T
+		for _, w := range wins {
+			inWin = append(inWin, and(eq(r, w.ref), le(w.lo, i), lt(i, w.hi)))
+		}
+		cond = imp(and(existed, not(or(excl...)), not(or(inWin...))), eq(sel(sel(final, r), i), sel(sel(init, r), i)))
+	} else {
+		cond = imp(and(existed, not(or(excl...))), eq(sel(final, r), sel(init, r)))
+	}
+	// ordinary references stay below the range used for the addresses of
+	// embedded fields (fewer than 2^40 objects are ever allocated)
+	if withEmb {
+		cond = imp(lt(curAlloc, embBase), cond)
+	}
+	if asAssumption {
+		if elemWise {
+			return fmt.Sprintf("(forall ((fr_r Int) (fr_i Int)) (! %s :pattern ((select (select %s fr_r) fr_i))))", cond, final), false
+		}
+		return fmt.Sprintf("(forall ((fr_r Int)) (! %s :pattern ((select %s fr_r))))", cond, final), false
+	}
+	return cond, false
 }
 
 func shortKey(key string) string {
